@@ -227,24 +227,24 @@ ADDENDA4 = {
     'C20': 'Eighth round: local aliases are followed flow-sensitively (`r = self.table; if c: r = r.copy(); r.update(x)` writes the copy only).',
 }
 ADDENDA5 = {
-    'C01': 'Ninth / tenth batch: the member that decides between the general and the flattened JSON syntax is "signatures" (R01.16); the signature segment goes through the strict decoder (R01.17).',
+    'C01': 'Ninth / tenth batch: the member that decides between the general and the flattened JSON syntax is "signatures" (R01.16); the signature segment goes through the strict decoder (R01.17); the flattened readers keep a received protected / header member whenever it is present, not when its decoded value is truthy (R01.18).',
     'C02': 'Ninth / tenth batch: the member that decides between the general and the flattened JWE JSON syntax is "recipients" (R02.16); the AAD of a JSON token is protected "." BASE64URL(aad) on the producing side too (R02.17).',
     'C03': 'Ninth / tenth batch: borrowed clauses - thumbprint field selection, each JSON member signed over its own protected header, consistent use / key_ops accepted at import.',
     'C04': 'Ninth / tenth batch: every recipient is tried inside the tolerant loop (R04.22); the algorithm header tables are compared name by name (R04.21); use_random reaches guess_key at the JWE call sites (R04.23); header writers are read whether or not the shared writer exists.',
     'C05': 'Ninth / tenth batch: an explicit algorithms list outranks a passed registry in the JWE operations (R05.16); the verifying loop is not left at the first success (R05.17).',
     'C06': 'Ninth batch: every producer of a key that reaches a primitive is a checked one (R06.1, interprocedural).',
-    'C07': 'Ninth / tenth batch: member crossing (R07.15), effect-freedom of the JWS functions (R07.16), consistent use / key_ops (R07.17), decode_header - which demands a protected alg - is called from the compact readers only (R07.18).',
+    'C07': 'Ninth / tenth batch: member crossing (R07.15), effect-freedom of the JWS functions (R07.16), consistent use / key_ops (R07.17), decode_header - which demands a protected alg - is called from the compact readers only (R07.18); key resolution on the verifying side never picks a random key or writes a kid into the received header (R07.19).',
     'C08': 'Ninth batch: effect-freedom of the JWE functions (R08.17); the tolerance for a failing recipient sits inside the loop (R08.18).',
     'C09': 'Ninth / tenth batch: borrowed clauses - zip honoured from the protected position, PKCS#7 padding from the library, thumbprint field selection.',
     'C10': 'Ninth batch: a claims registry keeps no memo on its class (R10.11).',
-    'C11': 'Tenth batch: every encoder call is the padding-stripping one (R11.23).',
+    'C11': 'Tenth / eleventh batch: every encoder call is the padding-stripping one (R11.23); ensure_kid writes a kid only where none is present (R11.24).',
     'C13': 'Tenth batch: kid assigned before the dict view is taken (R13.12); to_bytes returns its argument only under isinstance(x, bytes) (R13.13).',
-    'C14': 'Ninth / tenth batch: the unprotected header that is emitted is the one the key resolution wrote to (R14.16); routing of private / params (R14.17); header writers (R14.18).',
+    'C14': 'Ninth / tenth batch: the unprotected header that is emitted is the one the key resolution wrote to (R14.16); routing of private / params (R14.17); header writers (R14.18); given JWK members win over parameters in the dict view of an imported key (R14.19).',
     'C15': 'Ninth / tenth batch: check_more=True survives helpers shared with the producing side (R15.1 interprocedural); the header is judged before a key resolution may write to it (R15.10); the registry the caller passed is never replaced (R15.11); an algorithm\'s own header table is compared name by name (R15.3).',
     'C16': 'Ninth / tenth batch: strict header checking on the consuming side as a clause (E3); any repo callee keyed by a header member of a merged view needs the presence established first (E2c).',
     'C17': 'Tenth batch: unconsumed_tail bounds the input only when it is read before a further pull (R17.2, order-sensitive).',
     'C18': 'Ninth / tenth batch: every size parameter of generate_key_set is read (R18.10, frozen table of unused parameters); effect-freedom of the JWE family (R18.11).',
-    'C19': 'Ninth / tenth batch: borrowed clauses R19.11 / R19.12; to_bytes identity return only for bytes (R19.13).',
+    'C19': 'Ninth / tenth batch: borrowed clauses R19.11 / R19.12; to_bytes identity return only for bytes (R19.13); apu / apv reach the Concat KDF through the strict decoder in every key management mode (R19.14).',
 }
 ENGINE_NOTE = ' Engine: calls to functions that are not in the reference function list (new helpers, extracted or introduced) are inlined exactly before any rule runs (jv/inline.py); new private NamedTuples are dissolved (jv/sroa.py); tables, search loops and comprehensions over new module-level tables are unrolled; sentinel threading, selector sinking, walrus hoisting and type-dead None-test pruning (canon C24-C28) normalise what is left.'
 
